@@ -1029,6 +1029,12 @@ func ownerHolds(owner, val ssa.Value) bool {
 					return true
 				}
 			case *ssa.Call:
+				// the owner is the object a module constructor built around v (`w := wrapUpstream(tag, u)`): the
+				// constructor stores that parameter into a field of what it returns, and the object's Close closes
+				// that field
+				if core.Strip(x) == owner && ctorKeepsAndCloses(x, v) {
+					return true
+				}
 				// append(x.field, wrapper) / constructor taking v: result flows on
 				if flows(x, depth+1) {
 					return true
@@ -1054,6 +1060,78 @@ func ownerHolds(owner, val ssa.Value) bool {
 		return false
 	}
 	return flows(val, 0)
+}
+
+// ctorKeepsAndCloses: call is a static call of a module function that stores the parameter receiving v into a field F of
+// a struct it allocates and returns, and the returned type's Close method calls Close on its field F.
+func ctorKeepsAndCloses(call *ssa.Call, v ssa.Value) bool {
+	callee := core.StaticCallee(call)
+	if callee == nil || callee.Pkg == nil || !core.IsModule(callee.Pkg.Pkg) || len(callee.Blocks) == 0 {
+		return false
+	}
+	idx := -1
+	for i, a := range call.Call.Args {
+		if a == v || core.Strip(a) == v {
+			idx = i
+		}
+	}
+	if idx < 0 || idx >= len(callee.Params) {
+		return false
+	}
+	par := callee.Params[idx]
+	field := ""
+	var holder types.Type
+	core.EachInstr(callee, func(_ *ssa.BasicBlock, _ int, in ssa.Instruction) {
+		st, ok := in.(*ssa.Store)
+		if !ok || core.Strip(st.Val) != ssa.Value(par) && st.Val != ssa.Value(par) {
+			return
+		}
+		fa, ok := st.Addr.(*ssa.FieldAddr)
+		if !ok {
+			return
+		}
+		if _, isAlloc := fa.X.(*ssa.Alloc); !isAlloc {
+			return
+		}
+		for _, ret := range returnsOf(callee) {
+			for _, rv := range core.ReturnResults(ret) {
+				if core.Strip(rv) == fa.X {
+					field = core.FieldAddrRef(fa).Name
+					holder = rv.Type()
+				}
+			}
+		}
+	})
+	if field == "" || holder == nil {
+		return false
+	}
+	// the holder's Close closes that field
+	ms := types.NewMethodSet(holder)
+	for i := 0; i < ms.Len(); i++ {
+		if ms.At(i).Obj().Name() != "Close" {
+			continue
+		}
+		m := callee.Prog.MethodValue(ms.At(i))
+		if m == nil || len(m.Blocks) == 0 {
+			return false
+		}
+		for _, cc := range core.Calls(m) {
+			if !strings.HasSuffix(core.CallName(cc), "Close") {
+				continue
+			}
+			cm := cc.Common()
+			recv := cm.Value
+			if !cm.IsInvoke() && len(cm.Args) > 0 {
+				recv = cm.Args[0]
+			}
+			if u, ok := core.Unspill(recv).(*ssa.UnOp); ok {
+				if fa, ok := u.X.(*ssa.FieldAddr); ok && core.FieldAddrRef(fa).Name == field {
+					return true
+				}
+			}
+		}
+	}
+	return false
 }
 
 // coveringDefer: in is a `defer x.Close()` of val (or its owner), or a deferred closure of fn that
